@@ -530,8 +530,56 @@ class Fn:
             return c.get("ty")
         return None
 
-    def edge_dominators(self, b):
-        """branch edges (a, label) that every entry->b path must take."""
+    def edge_dominators(self, b, _depth=0):
+        """branch edges (a, label) that every entry->b path must take.  A branch on a bool temporary
+        that is assigned constants in several arms (`matches!`, `&&`/`||` lowering) is seen through:
+        the edges that dominate every assignment of the taken value are added."""
+        base = self._edge_dominators_raw(b)
+        if _depth >= 3:
+            return base
+        out = set(base)
+        for (a, label) in base:
+            t = self.blocks[a]["term"]
+            if t["k"] != "switch":
+                continue
+            p = op_place(t["discr"])
+            if p is None or p.get("p") or self.locals[p["l"]] != "bool":
+                continue
+            ds = [d for d in self.defs.get(p["l"], []) if d[0] == "stmt" and d[1] in self.reach_blocks]
+            if len(ds) < 2:
+                continue
+            vals = [v for v, _ in t["targets"]]
+            want = None
+            if label == "0":
+                want = False
+            elif label == "1":
+                want = True
+            elif label == "otherwise" and vals == [0]:
+                want = True
+            elif label == "otherwise" and vals == [1]:
+                want = False
+            if want is None:
+                continue
+            blocks = []
+            okc = True
+            for d in ds:
+                rv = d[3]
+                k = op_const(rv["op"]) if rv["k"] == "use" else None
+                if k is None or "bool" not in k:
+                    okc = False
+                    break
+                if k["bool"] is want:
+                    blocks.append(d[1])
+            if not okc or not blocks:
+                continue
+            common = None
+            for db in blocks:
+                e = self.edge_dominators(db, _depth + 1)
+                common = e if common is None else (common & e)
+            out |= (common or set())
+        return out
+
+    def _edge_dominators_raw(self, b):
         out = set()
         n = len(self.blocks)
         for a in self.dom[b]:
